@@ -1820,7 +1820,7 @@ def merge_obs(list_of_obs):
 
     names = sorted(new_dict.keys())
     o = Obs([new_dict[name] for name in names], names, idl=[idl_dict[name] for name in names])
-    o.reweighted = np.max([oi.reweighted for oi in list_of_obs])
+    o.reweighted = bool(np.max([oi.reweighted for oi in list_of_obs]))
     return o
 
 
